@@ -21,6 +21,16 @@ def main():
     ap.add_argument("--replay", default=None)
     a = ap.parse_args()
     os.chdir(vcommon.VERIF)
+    if a.replay:
+        # a replay file written for an obligation that no longer checked (no failing input was found)
+        # carries no input: re-run the check itself, which re-checks the obligation
+        try:
+            with open(a.replay) as f:
+                first = f.readline()
+            if "key=obligation:" in first:
+                a.replay = None
+        except OSError:
+            pass
     mod = importlib.import_module(a.pid.lower())
     res = vcommon.Result(a.pid, a.tier, level="proof")
     try:
